@@ -75,6 +75,62 @@ def run_lifemt(run, lib, tag, rounds, order, extra_ini=b"", timeout=120):
     return {"status": status, "stderr": err, "marks": marks, "errs": errs, "masks": masks, "dir": d}
 
 
+import threading
+_stage_lock = threading.Lock()
+
+
+def stage_life_tools(run):
+    import shutil
+    with _stage_lock:
+        tools = os.path.join(run.scratch, "life-tools")
+        if not os.path.isdir(tools):
+            tmp = tools + ".tmp"
+            os.makedirs(tmp, exist_ok=True)
+            for f in ("tool_caller", "tool_runas", "librecorder.so", "liballoc.so", "libfaultlite.so"):
+                src = os.path.join(BUILD, "harness", f)
+                if not os.path.exists(src):
+                    raise CheckError("%s missing: run MANIFEST.setup_cmd" % src)
+                shutil.copy(src, os.path.join(tmp, f))
+                os.chmod(os.path.join(tmp, f), 0o755)
+            os.chmod(tmp, 0o755)
+            os.chmod(run.scratch, 0o755)
+            os.rename(tmp, tools)
+        return tools
+
+
+def run_life_as(run, lib, script, tag, uid, tty, fault=None, timeout=120):
+    """like run_life, but the caller runs as `uid` (real = effective = saved; 0 = stay root) with a pty (tty) or /dev/null on stdin (harness/tool_runas.c);
+    every file the run needs is staged world-readable inside the scratch directory"""
+    import shutil
+    from .syslevel import parse_rec
+    tools = stage_life_tools(run)
+    os.chmod(lib, 0o755)
+    d = os.path.join(run.scratch, "sys-" + tag)
+    os.makedirs(d, exist_ok=True)
+    os.chmod(d, 0o777)
+    sp, rec, ini = (os.path.join(d, x) for x in ("script.txt", "rec.txt", "snoopy.ini"))
+    open(sp, "w").write("".join(l + "\n" for l in script))
+    os.chmod(sp, 0o644)
+    if os.path.exists(rec):
+        os.unlink(rec)
+    pre = " ".join([os.path.join(tools, "liballoc.so"), os.path.join(tools, "libfaultlite.so"), lib, os.path.join(tools, "librecorder.so")])
+    env = {"PATH": "/usr/bin:/bin", "HOME": "/", "VERIF_ALLOC_OBJ": os.path.basename(lib), "VERIF_FAULT_OBJ": os.path.basename(lib), "VERIF_ALLOC_QUARANTINE": "1"}
+    if fault:
+        env["VERIF_FAULT"] = fault
+    if tty:                                  # a utmp file that exists and has no record for the run's terminal
+        up = os.path.join(d, "utmp")
+        open(up, "wb").write(b"\0" * 384)    # one empty (EMPTY type) record
+        os.chmod(up, 0o644)
+        env["VERIF_UTMP"] = up
+    cmd = [os.path.join(tools, "tool_runas"), str(uid), "1" if tty else "0", pre, os.path.join(tools, "tool_caller"), sp, rec, ini]
+    try:
+        p = subprocess.run(cmd, env=env, cwd=d, timeout=timeout, stdin=subprocess.DEVNULL, stdout=subprocess.PIPE, stderr=subprocess.PIPE)
+        status, err = p.returncode, p.stderr.decode(errors="replace")
+    except subprocess.TimeoutExpired as ex:
+        status, err = "timeout", (ex.stderr or b"").decode(errors="replace")
+    return {"status": status, "stderr": err, "records": parse_rec(rec) if os.path.exists(rec) else [], "dir": d, "ini": ini}
+
+
 def coq_query(run, name, text, timeout=120):
     """compile a throw-away query file against the run's Gen files; returns coqc's output (diagnosis of a broken obligation)"""
     from .core import THEORIES, sh
